@@ -12,6 +12,7 @@ import (
 	"sort"
 	"strings"
 	"sync"
+	"sync/atomic"
 	"time"
 
 	"github.com/getlantern/goexpr"
@@ -379,7 +380,7 @@ type conn struct {
 	mu     sync.Mutex
 	cond   *sync.Cond
 	cut    bool
-	paused bool
+	paused int32 // atomic: set in script order; the waiting delivery is woken asynchronously
 }
 
 type followerNode struct {
@@ -627,7 +628,7 @@ func (c *Cluster) connect(l *leaderNode, f *followerNode) {
 	go db.Follow(&req, func(data []byte, off wal.Offset) error {
 		cn.mu.Lock()
 		defer cn.mu.Unlock()
-		for cn.paused && !cn.cut {
+		for atomic.LoadInt32(&cn.paused) == 1 && !cn.cut {
 			cn.cond.Wait()
 		}
 		if cn.cut {
@@ -687,10 +688,15 @@ func (c *Cluster) pause(l *leaderNode, f *followerNode, on bool) {
 	if cn == nil {
 		return
 	}
-	// do not wait for a delivery in progress: flip the flag as soon as the lock is free
+	// the flag changes at once (hold / release keep their script order); a delivery that is
+	// waiting on it is woken as soon as the lock is free (a delivery in progress holds it)
+	v := int32(0)
+	if on {
+		v = 1
+	}
+	atomic.StoreInt32(&cn.paused, v)
 	go func() {
 		cn.mu.Lock()
-		cn.paused = on
 		cn.cond.Broadcast()
 		cn.mu.Unlock()
 	}()
